@@ -94,6 +94,7 @@ type seqRule struct {
 	cutLoops bool // (unused: every loop is cut into per-iteration segments)
 	maxDepth int
 	trackField string
+	trackAny   []string
 	init       kv
 	args       []Value
 }
@@ -137,7 +138,7 @@ func (sr *seqRule) segments(root *Func) []Segment {
 		j := strings.Index(last, "~")
 		return last[:j], last[j+1:], rest
 	}
-	tr := &traceRule{c: sr.c, rule: sr.rule, noInline: sr.noInline, maxDepth: sr.maxDepth, relevant: sr.relevant, trackField: sr.trackField, args: sr.args}
+	tr := &traceRule{c: sr.c, rule: sr.rule, noInline: sr.noInline, maxDepth: sr.maxDepth, relevant: sr.relevant, trackField: sr.trackField, trackAny: sr.trackAny, args: sr.args}
 	tr.classify = sr.classify
 	tr.step = func(s kv, ev Ev) kv {
 		switch {
@@ -187,8 +188,26 @@ func (sr *seqRule) segments(root *Func) []Segment {
 	tr.exit = func(s kv, fr *Frame, ret *ast.ReturnStmt, vals []Value) {
 		end := sr.c.retPos(fr, ret)
 		if tp, _, _ := top(s); tp != "" {
-			// return from inside a loop iteration
+			// return from inside a loop iteration: the iteration itself ...
 			emit("iter", tp, s.get("seq"), s, end, vals, true, "exit")
+			// ... and the whole path from the entry (prefixes of all enclosing
+			// loops, each followed by the iteration it was left from)
+			full := ""
+			for _, ent := range strings.Split(s.get("stk"), "|") {
+				if j := strings.Index(ent, "~"); j >= 0 && ent[j+1:] != "" {
+					if full != "" {
+						full += ","
+					}
+					full += ent[j+1:]
+				}
+			}
+			if cur := s.get("seq"); cur != "" {
+				if full != "" {
+					full += ","
+				}
+				full += cur
+			}
+			emit("path", "", full, s, end, vals, true, "exit")
 			return
 		}
 		emit("path", "", s.get("seq"), s, end, vals, true, "exit")
